@@ -51,6 +51,20 @@ PLAN = {
         "not_decided": ["read-out of the enumerated solutions (after setObjective) is covered only by the bounded native check",
                         "agreement with independent solvers"],
     },
+    "C03": {
+        "functions": [
+            "aldy.cn.estimate_cn",
+            "aldy.cn._parse_user_solution",
+            "aldy.solutions.CNSolution.__init__",
+            "aldy.solutions.CNSolution.position_cn",
+            "aldy.solutions.CNSolution.max_cn",
+            "aldy.gene.Gene.deletion_allele",
+        ],
+        "level": "other",
+        "assumptions": ["CBC / OR-Tools returns true optima of the emitted model (assumed solver contract)"],
+        "not_decided": ["solve_cn_model (builder and read-out): not yet under contract in this round",
+                        "VCF input fixes the structure to two copies in genotype(): not yet under contract"],
+    },
     "C18": {
         "functions": ["aldy.profile.Profile.update"],
         "assumptions": ["str.lower, int(str), float(str) are uninterpreted functions (parses_int / parses_float / str_lower)"],
